@@ -65,11 +65,13 @@ def Variant.fixed : Variant := ⟨true, true, true, true, true⟩
 def Variant.repo : Variant := ⟨true, true, false, false, false⟩
 
 inductive Err | indexError | assertionError | valueError | zeroDivision | notImplemented
+  | mappingNotFound | malformed          -- snax_phs: raised by the PHS encoder / decoder
   deriving DecidableEq, Repr
 
 def Err.name : Err → String
   | .indexError => "IndexError" | .assertionError => "AssertionError" | .valueError => "ValueError"
   | .zeroDivision => "ZeroDivisionError" | .notImplemented => "NotImplementedError"
+  | .mappingNotFound => "MappingNotFoundError" | .malformed => "Malformed"
 
 /-! ## Operations -/
 
@@ -98,6 +100,7 @@ inductive Leaf
   | inp (i : Nat)    -- i-th input of the first `dart.generic` (qmac zero points)
   | ptr (i : Nat)    -- hwpe: aligned pointer + byte offset of memref operand i, as i32
   | dim (i : Nat)    -- hwpe: `memref.dim %operand_i, 0`, as i32
+  | dimDiv4 (i : Nat) -- alu (linalg path): `memref.dim %operand_i, 0` divided (unsigned) by 4, as i32
   deriving DecidableEq, Repr
 
 /-- A generated value: the expression tree of the `arith` ops that define it. -/
@@ -139,6 +142,8 @@ inductive Field
   | enabledChan (s : Nat) | enabledByte (s : Nat) | bypass (s : Nat) | extCsr (s : Nat) (e : Ext) (i : Nat)
   -- alu
   | aluMode | loopBoundAlu
+  -- phs
+  | phsSwitch (i : Nat)
   -- gemmx
   | K | N | M | subtractions | csr0 | csr1 | shift (i : Nat) | mult (i : Nat) | temporalLoopBound | bypassSIMD
   -- hwpe
@@ -162,6 +167,7 @@ def Field.name : Field → String
   | .enabledChan s => s!"{sname s}_enabled_chan" | .enabledByte s => s!"{sname s}_enabled_byte"
   | .bypass s => s!"{sname s}_bypass" | .extCsr s e i => s!"{sname s}_{e.name}_{i}"
   | .aluMode => "alu_mode" | .loopBoundAlu => "loop_bound_alu"
+  | .phsSwitch i => s!"phs_switch_{i}"
   | .K => "K" | .N => "N" | .M => "M" | .subtractions => "subtractions" | .csr0 => "csr0" | .csr1 => "csr1"
   | .shift i => s!"shift_{i}" | .mult i => s!"mult_{i}"
   | .temporalLoopBound => "temporal_loop_bound" | .bypassSIMD => "bypassSIMD"
@@ -307,6 +313,34 @@ def aluVals (v : Variant) (cfg : List Streamer) (op : StreamOp) : Except Err (Li
     | .error e => .error e
     | .ok sv => .ok (sv ++ [.c 0, .c lb])
 
+/-! ## snax_alu, legacy `linalg.generic` path (`_generate_setup_vals`): a fixed table -/
+
+/-- The 17 values the legacy path emits for `linalg.generic(a, b) -> o` over 1-d memrefs, whatever the streamer
+configuration of the accelerator is: per operand (pointer, 0, 8, dim/4, 32), then alu mode 0 and dim/4 iterations. -/
+def aluLinalgVals : List Val :=
+  let lb : Val := .leaf (.dimDiv4 0)
+  [.leaf (.ptr 0), .c 0, .c 8, lb, .c 32,
+   .leaf (.ptr 1), .c 0, .c 8, lb, .c 32,
+   .leaf (.ptr 2), .c 0, .c 8, lb, .c 32,
+   .c 0, lb]
+
+/-- the configuration the table was written for (`snax_alu.default_streamer`) -/
+def aluDefault : List Streamer :=
+  [ { tdims := [.n], sdims := [4], opts := [] }, { tdims := [.n], sdims := [4], opts := [] },
+    { tdims := [.n], sdims := [4], opts := [] } ]
+
+/-- What the registers mean for an elementwise operation over 1-d `i64` memrefs on 4 lanes: base pointer of operand
+`s`, 8 bytes between lanes, `dim/4` temporal steps of 32 bytes, and as many ALU iterations. -/
+def aluLinalgMeaning : Field → Option Den
+  | .ptrLow s => if s < 3 then some (fun env => env (.ptr s)) else none
+  | .ptrHigh s => if s < 3 then some (konst 0) else none
+  | .sstride s 0 => if s < 3 then some (konst 8) else none
+  | .bound s 0 => if s < 3 then some (fun env => env (.dimDiv4 0)) else none
+  | .tstride s 0 => if s < 3 then some (konst 32) else none
+  | .aluMode => some (konst 0)
+  | .loopBoundAlu => some (fun env => env (.dimDiv4 0))
+  | _ => none
+
 /-! ## snax_gemmx -/
 
 /-- attributes of a `kernel.rescale` -/
@@ -365,6 +399,8 @@ structure GParams where
   mults : List Val
   tlb : Val
   byp : Val
+  /-- attributes `_generate_setup_vals` attaches to the `accfg.launch` (consumed by `lower_acc_launch`) -/
+  attrs : List (String × List Int) := []
   deriving Repr
 
 def c255 : Val := .c 255
@@ -400,6 +436,17 @@ def effRescale (n : Nat) (op : GemmxOp) : Rescale :=
   | some r => { r with shifts := bcastN n r.shifts, mults := bcastN n r.mults }
   | none => defaultRescale n
 
+/-- Channel-wise requantisation with more channels than the array has columns: the registers carry the first `n`
+channels, the complete attribute arrays of the `kernel.rescale` (as written, not broadcast) and `M` travel as
+attributes of the launch: `shift_vals` iff more than `ceil(n/4)` packed shift words, `mult_vals` and `m` iff more than
+`n` multipliers. -/
+def launchAttrs (n : Nat) (op : GemmxOp) (nShiftWords nMults : Nat) (m : Int) : List (String × List Int) :=
+  match op.post with
+  | none => []
+  | some r =>
+    (if nShiftWords > ceil4 n then [("shift_vals", r.shifts)] else [])
+    ++ (if nMults > n then [("mult_vals", r.mults), ("m", [m])] else [])
+
 def gemmxParams (v : Variant) (n : Nat) (op : GemmxOp) : Except Err GParams :=
   match op.kernel with
   | .mac zp =>
@@ -423,7 +470,7 @@ def gemmxParams (v : Variant) (n : Nat) (op : GemmxOp) : Except Err GParams :=
             .ok { k := k, n := 1, m := m, sub := sub,
                   csr0 := csr0Val r.minI r.maxI r.outZp r.inZp, csr1 := .c r.dr,
                   shifts := sh.take (ceil4 n), mults := (r.mults.map Val.c).take n,
-                  tlb := .c m, byp := .c 0 }
+                  tlb := .c m, byp := .c 0, attrs := launchAttrs n op sh.length r.mults.length m }
         else
           .ok { k := k, n := 1, m := m, sub := sub, csr0 := .c 0, csr1 := .c 0,
                 shifts := List.replicate (ceil4 n) (.c 0), mults := List.replicate n (.c 1),
@@ -551,6 +598,16 @@ def xdmaVals (v : Variant) (cfg : List Streamer) (op : XdmaOp) : Except Err (Lis
     | .error e => .error e
     | .ok bs =>
       .ok ((cfg.zipIdx.zip zs).flatMap (fun y => [ptrLowVal y.2 y.1.2, .c 0]) ++ (cfg.zipIdx.zip bs).flatMap (·.2))
+
+/-! ## The launch op: `accfg.LaunchOp([...], self.launch_fields, setup)` -/
+
+/-- (launch field, constant written) per accelerator: both launch registers of a streamer accelerator get the same
+`arith.constant 1 : i5`, xDMA `1 : i32`, hwpe `0 : i5` -/
+def aluLaunch : List (String × Int) := [("launch_streamer", 1), ("launch_alu", 1)]
+def gemmxLaunch : List (String × Int) := [("launch_streamer", 1), ("launch_gemmx", 1)]
+def xdmaLaunch : List (String × Int) := [("launch_start", 1)]
+def phsLaunch : List (String × Int) := [("launch_streamer", 1), ("launch_alu", 1)]
+def hwpeLaunch : List (String × Int) := [("launch", 0)]
 
 /-! ## snax_hwpe_mult (linalg path, fixed tables) -/
 
